@@ -634,7 +634,9 @@ def page_by_page(data):
         raise failed
 
 
-def entry_points(data, seed_name="", fault=None):
+def entry_points(data, seed_name="", fault=None, tier="thorough"):
+    """(name, callable) pairs.  The quick tier leaves out extract_pages (the layout stage alone, which extract_text and
+    the converters run through as well) and, where the HTML converter runs, the XML converter."""
     if fault is not None and fault[0] in NOCACHE_FAULTS:
         # reference faults also without the object cache: loop guards must not depend on objects being cached
         yield "extract_text(caching=False)", (lambda: extract_text(io.BytesIO(data), caching=False))
@@ -645,14 +647,17 @@ def entry_points(data, seed_name="", fault=None):
         yield "page-by-page loop", (lambda: page_by_page(data))
     if fault is not None and fault[0] in ("replace", "variant", "remove", "ref"):
         yield "extract_text under settings.STRICT", (lambda: strict_extract(data))
-    yield "extract_pages", (lambda: list(extract_pages(io.BytesIO(data))))
+    if tier != "quick":
+        yield "extract_pages", (lambda: list(extract_pages(io.BytesIO(data))))
 
     def xml():
         out = io.BytesIO()
         extract_text_to_fp(io.BytesIO(data), out, output_type="xml", codec="utf-8")
 
-    yield "extract_text_to_fp(xml)", xml
-    if fault is not None and fault[0] != "truncate":
+    html_runs = fault is not None and fault[0] != "truncate"
+    if tier != "quick" or not html_runs:
+        yield "extract_text_to_fp(xml)", xml
+    if html_runs:
 
         def html():
             extract_text_to_fp(io.BytesIO(data), io.BytesIO(), output_type="html", codec="utf-8")
@@ -699,7 +704,7 @@ def run(tape, ctx, item=None):
     ctx.fault(f[0] if f[0] not in ("replace", "ref", "variant") else fk)
     ctx.probe({"truncate": "truncation", "replace": "replace", "variant": "replace", "xrefcycle": "ref-loop", "prevloop": "ref-loop", "xrefstmloop": "ref-loop", "inline": "replace", "cdict": "replace", "ccut": "payload", "lengthref": "ref-loop", "remove": "remove", "ref": "ref-loop" if f[0] == "ref" and f[3][:3] in ("loo", "rho") else "replace", "flip": "payload", "cut": "payload", "length": "payload", "cflip": "payload", "ecut": "payload", "eflip": "payload"}[f[0]])
     outcomes = []
-    for name, fn in entry_points(data, seed.name, f):
+    for name, fn in entry_points(data, seed.name, f, ctx.tier):
         # (the page-by-page loop interprets every page four times: its budget is four single passes)
         seams.CLOCK.start(budget * (4 if name == "page-by-page loop" else 1))
         sig = None
